@@ -34,17 +34,32 @@ type CmdSpec struct {
 	What   string // wipe: ca | keys | all
 	T      int
 	Raw    string // the specification's parameter string of the Cmd event
+	Spell  string // how the serial is spelled on the command line (printf verb; "" = %d)
+	Fail   string // every interface call of this name fails during the command ("" = none)
 }
 
 func (c CmdSpec) String() string {
 	switch c.Kind {
 	case "wipe":
-		return "wipeout " + c.What
+		w := "wipeout " + c.What
+		if c.Kg {
+			w += " --keep_going"
+		}
+		if c.Fail != "" {
+			w += " [every " + c.Fail + " call fails]"
+		}
+		return w
 	case "bootstrap":
+		if c.Spell != "" {
+			return fmt.Sprintf("bootstrap(serial typed %q,overwrite=%v)", c.serialArg(), c.Ow)
+		}
 		if c.Kg {
 			return fmt.Sprintf("bootstrap(serial=%d,overwrite=%v,keep_going)", c.Serial, c.Ow)
 		}
 		return fmt.Sprintf("bootstrap(serial=%d,overwrite=%v)", c.Serial, c.Ow)
+	}
+	if c.Spell != "" {
+		return fmt.Sprintf("rotate(override typed %q,overwrite=%v)", c.serialArg(), c.Ow)
 	}
 	if c.Kg {
 		return fmt.Sprintf("rotate(override=%d,overwrite=%v,keep_going)", c.Serial, c.Ow)
@@ -68,15 +83,27 @@ func parseCmd(e Event) (CmdSpec, error) {
 	return c, nil
 }
 
+// serialArg: serial flags take decimal numbers, however many leading zeros the operator types
+func (c CmdSpec) serialArg() string {
+	if c.Spell != "" {
+		return fmt.Sprintf(c.Spell, c.Serial)
+	}
+	return fmt.Sprint(c.Serial)
+}
+
 func (c CmdSpec) args(at time.Time) []string {
 	switch c.Kind {
 	case "wipe":
-		if c.What == "all" {
-			return []string{"wipeout"}
+		a := []string{"wipeout"}
+		if c.What != "all" {
+			a = append(a, c.What)
 		}
-		return []string{"wipeout", c.What}
+		if c.Kg {
+			a = append(a, "--keep_going")
+		}
+		return a
 	case "bootstrap":
-		a := []string{"bootstrap", "--timestamp", ts(at), "--initial_signing_key_serial", fmt.Sprint(c.Serial)}
+		a := []string{"bootstrap", "--timestamp", ts(at), "--initial_signing_key_serial", c.serialArg()}
 		if c.Ow {
 			a = append(a, "--overwrite")
 		}
@@ -87,7 +114,7 @@ func (c CmdSpec) args(at time.Time) []string {
 	}
 	a := []string{"rotate", "--timestamp", ts(at)}
 	if c.Serial != 0 {
-		a = append(a, "--rotated_key_serial_override", fmt.Sprint(c.Serial))
+		a = append(a, "--rotated_key_serial_override", c.serialArg())
 	}
 	if c.Ow {
 		a = append(a, "--overwrite")
@@ -246,7 +273,7 @@ func checkCommand(run *vk.Run, a *Authority, st *nodeState, c CmdSpec, at time.T
 	}
 	rebootstrap := c.Kind == "bootstrap" && (len(before) > 0 || len(namesBefore) > 0)
 	brokenBefore := recordedChainBroken(a)
-	t := &Tap{}
+	t := &Tap{FailName: c.Fail}
 	err := a.Exec(t, c.args(at)...)
 	if err != nil && strings.HasPrefix(err.Error(), "PANIC") {
 		viol("panic:"+c.Kind, "command %s panics: %v", c, err)
@@ -664,6 +691,42 @@ func RunC12(run *vk.Run) {
 		walk(a, nodeState{epochRot: map[string]bool{}, everNames: map[string]bool{}, everPrim: map[string]bool{}}, roots[combo], 0, nil)
 	}
 	wg.Wait()
+	// serial numbers as an operator may type them: decimal with leading zeros (the flags' help says decimal);
+	// the predicates are the ones of every other history, the expected serials the decimal values
+	for _, combo := range combos {
+		a, err := NewAuthority(combo)
+		if err != nil {
+			run.Infra(err)
+			return
+		}
+		st := nodeState{epochRot: map[string]bool{}, everNames: map[string]bool{}, everPrim: map[string]bool{}, base: T0, noTrace: true}
+		hist := []CmdSpec{{Kind: "bootstrap", Serial: 100, Spell: "%06d"}, {Kind: "rotate", Serial: 120, Spell: "%06d"}, {Kind: "rotate"}, {Kind: "rotate", Serial: 77, Spell: "0%d"}, {Kind: "rotate"}}
+		for k := range hist {
+			checkCommand(run, a, &st, hist[k], T0.Add(time.Duration(k+1)*36*time.Hour), hist[:k+1])
+			run.Case(fmt.Sprintf("spelled-serials|%v|%d", combo, k), true)
+		}
+		a.Close()
+	}
+	// a wipeout one of whose two steps (certificate store, key store) cannot be carried out, with and without
+	// --keep_going: a wipeout that reports success has left no key or certificate usable
+	for _, combo := range combos {
+		for _, failing := range []string{"Manager.Wipeout", "CA.Wipeout"} {
+			for _, kg := range []bool{true, false} {
+				a, err := NewAuthority(combo)
+				if err != nil {
+					run.Infra(err)
+					return
+				}
+				st := nodeState{epochRot: map[string]bool{}, everNames: map[string]bool{}, everPrim: map[string]bool{}, base: T0, noTrace: true}
+				hist := []CmdSpec{{Kind: "bootstrap", Serial: 2}, {Kind: "rotate"}, {Kind: "wipe", What: "all", Kg: kg, Fail: failing}}
+				for k := range hist {
+					checkCommand(run, a, &st, hist[k], T0.Add(time.Duration(k+1)*36*time.Hour), hist[:k+1])
+				}
+				run.Case(fmt.Sprintf("failing-wipeout|%v|%s|%v", combo, failing, kg), true)
+				a.Close()
+			}
+		}
+	}
 	// code -> spec: the recorded executions of the complete histories (storage-backed combination over
 	// the in-memory storage double) must be behaviours of KeyAuthority.tla
 	if len(traces) > 0 {
